@@ -284,8 +284,17 @@ class Effects:
             cur = par
         atoms = set()
 
-        def positive_conjuncts(e):
+        def positive_conjuncts(e, neg=False):
             e = _Subst(defs, 3).visit(copy.deepcopy(e))
+            # push negations inwards: not not X = X ; not (A or B) = not A and not B
+            if isinstance(e, ast.UnaryOp) and isinstance(e.op, ast.Not):
+                positive_conjuncts(e.operand, not neg)
+                return
+            if neg:
+                if isinstance(e, ast.BoolOp) and isinstance(e.op, ast.Or):
+                    for v in e.values:
+                        positive_conjuncts(v, True)
+                return
             if isinstance(e, ast.BoolOp) and isinstance(e.op, ast.And):
                 for v in e.values:
                     positive_conjuncts(v)
